@@ -8,14 +8,17 @@ LEAN_TARGETS = ["EtkVerif.Props.C07"]
 RULE = ("%push of constants at every byte-length boundary 2^(8k)-1 / 2^(8k) / +1 for k = 0..33 and random values, each written three "
         "ways (literal in a random radix, arithmetic expression, expression-macro call), between labels and inside macros; %push of "
         "label expressions from the layout family; negative and > 32-byte values. Reference: Python big integers, minimal width, "
-        "least fixed point layout. non-trivial = value needs more than one byte")
+        "least fixed point layout; plus n/5 each of: a push that shifts its own label (`%push(lbl + K)`, `lbl * M`) and grows 1->2->3 in successive rounds, cascading widenings of 2-4 pushes in any program order, the 64 KiB twice-growing family. non-trivial = value needs more than one byte")
 EXHAUSTIVE = {"quick": False, "thorough": False}
 ASSUMPTIONS = []
 
 
 def cases(rng, tier):
     n = 250 if tier == "quick" else 4000
-    return family_cases(rng, [("autopush", G.gen_autopush), ("layout", G.gen_layout), ("shrink", G.gen_shrink)], n, faults=0.0)
+    cs = family_cases(rng, [("autopush", G.gen_autopush), ("layout", G.gen_layout), ("shrink", G.gen_shrink)], n, faults=0.0)
+    # pushes that grow more than once / in cascades over several relaxation rounds: the immediate must be the value under the FINAL layout
+    cs += family_cases(rng, [("selfshift", G.gen_selfshift), ("cascade", G.gen_cascade), ("twice", G.gen_twice)], n // 5, faults=0.0)
+    return cs
 
 
 def nontrivial(case, reply):
